@@ -180,6 +180,16 @@ bool BotanSymmetricAlgorithm::encryptInit(const SymmetricKey* key, const SymMode
 			filter->set_iv(botanIV);
 			cryption = new Botan::Pipe(filter);
 		}
+		else if (mode == SymMode::ECB)
+		{
+			// ECB cipher mode was dropped in Botan 2.0.0, use the implementation in Botan_ecb
+			const std::vector<std::string> algoParts = split_on_delim(cipherName, '/');
+			const bool withPadding = (algoParts.size() == 3 && algoParts[2] == "PKCS7");
+			std::unique_ptr<Botan::BlockCipher> blockCipher(Botan::BlockCipher::create_or_throw(algoParts[0]));
+			Botan::Keyed_Filter* filter = new Botan::Cipher_Mode_Filter(new Botan::ECB_Encryption(blockCipher.release(), withPadding));
+			filter->set_key(botanKey);
+			cryption = new Botan::Pipe(filter);
+		}
 		else
 		{
 			Botan::InitializationVector botanIV = Botan::InitializationVector(IV.const_byte_str(), IV.size());
@@ -394,6 +404,16 @@ bool BotanSymmetricAlgorithm::decryptInit(const SymmetricKey* key, const SymMode
 			Botan::InitializationVector botanIV = Botan::InitializationVector(IV.const_byte_str(), IV.size());
 			Botan::Keyed_Filter* filter = new Botan::Cipher_Mode_Filter(aead);
 			filter->set_iv(botanIV);
+			cryption = new Botan::Pipe(filter);
+		}
+		else if (mode == SymMode::ECB)
+		{
+			// ECB cipher mode was dropped in Botan 2.0.0, use the implementation in Botan_ecb
+			const std::vector<std::string> algoParts = split_on_delim(cipherName, '/');
+			const bool withPadding = (algoParts.size() == 3 && algoParts[2] == "PKCS7");
+			std::unique_ptr<Botan::BlockCipher> blockCipher(Botan::BlockCipher::create_or_throw(algoParts[0]));
+			Botan::Keyed_Filter* filter = new Botan::Cipher_Mode_Filter(new Botan::ECB_Decryption(blockCipher.release(), withPadding));
+			filter->set_key(botanKey);
 			cryption = new Botan::Pipe(filter);
 		}
 		else
